@@ -42,11 +42,13 @@ func getPublicIPUsingIPChecker(ctx context.Context, client *http.Client, backoff
 		return nil, errors.New("failed to create new request: " + err.Error())
 	}
 
+	ctxWithTimeout, cancel := context.WithTimeout(ctx, ipCheckerCallTimeout)
+	defer cancel()
+	// bind the request to the timeout as well, otherwise a stalled server blocks the call forever
+	req = req.WithContext(ctxWithTimeout)
 	operation := func() (net.IP, error) {
 		return handleRequest(client, req)
 	}
-	ctxWithTimeout, cancel := context.WithTimeout(ctx, ipCheckerCallTimeout)
-	defer cancel()
 	result, err := backoff.Retry(ctxWithTimeout, operation, backoff.WithBackOff(backoffPolicy))
 	if err != nil {
 		return nil, errors.New("backoff retry error: " + err.Error())
